@@ -109,7 +109,7 @@ func (a *An) retireOrder(rule string) {
 			fld := a.MustField("keyManagementContext", "oldMACKeys")
 			n := 0
 			for _, st := range a.DirectStoresTo(fld) {
-				if st.Parent() != rv {
+				if !a.C.within(st, rv) {
 					continue
 				}
 				n++
@@ -273,7 +273,7 @@ func (a *An) c09Emit() {
 		}
 		n := 0
 		for _, st := range a.DirectStoresTo(a.MustField("keyManagementContext", "oldMACKeys")) {
-			if st.Parent() != fn {
+			if !a.C.within(st, fn) {
 				continue
 			}
 			n++
@@ -320,7 +320,7 @@ func (a *An) c09More() {
 	fld := a.MustField("dataMsg", "oldMACKeys")
 	if fld != nil {
 		for _, st := range a.StoresTo(fld) {
-			fn := a.C.Name(st.Parent())
+			fn := a.C.Name(a.C.owner(st.Parent()))
 			if _, direct := st.Addr.(*ssa.FieldAddr); !direct {
 				continue // whole-struct stores (construction / copies)
 			}
